@@ -51,17 +51,18 @@ example : (runUnified 1 ⟨10, 20⟩ [.ctx, .minus, .minus, .plus, .ctx]).toOpti
 
 /-- Side-by-side view, one subhunk of `m` removed and `p` added lines, for every line alignment
     that uses each line once and in order (paired or not) and every number of rows per line
-    (`wl`, `wr`, each ≥ 1): the rows are those of `sbsSpec` — the first row of a line shows its true
+    (`wl`, `wr`, each ≥ 1) and whichever lines are kept raw in their state (`rl`, `rr`: coloured
+    input, `raw` styles): the rows are those of `sbsSpec` — the first row of a line shows its true
     number (`a + i` for removed line `i`, `c + j` for added line `j`) in its own panel,
     continuation rows show none, the opposite panel of an unpaired row shows none — and the
     counters advance by exactly `(m, p)`. -/
-theorem sbs_numbers_true (a c m p : Nat) (al : Alignment) (wl wr : List Nat)
+theorem sbs_numbers_true (a c m p : Nat) (al : Alignment) (wl wr : List Nat) (rl rr : List Bool)
     (hv : validFrom al 0 0 = some (m, p)) (hwl : wl.length = m) (hwr : wr.length = p)
     (hposl : ∀ x ∈ wl, 1 ≤ x) (hposr : ∀ y ∈ wr, 1 ≤ y)
     (ha : a + m + 1 ≤ usizeMax) (hc : c + p ≤ usizeMax) :
-    ∃ rows, sbsBlock ⟨a, c⟩ m p al wl wr = .ok (⟨a + m, c + p⟩, rows) ∧
+    ∃ rows, sbsBlock ⟨a, c⟩ m p al wl wr rl rr = .ok (⟨a + m, c + p⟩, rows) ∧
       rows.map SbsRow.shown = (sbsSpec a c al wl wr).map some :=
-  sbsBlock_spec a c m p al wl wr hv hwl hwr hposl hposr ha hc
+  sbsBlock_spec a c m p al wl wr rl rr hv hwl hwr hposl hposr ha hc
 
 /-- Hypotheses of `sbs_numbers_true` on a non-trivial value: 3 removed, 2 added lines; line 0
     unpaired and wrapped into 2 rows, lines 1/0 paired with 1 vs 3 rows, then an unpaired added
@@ -70,6 +71,15 @@ example : validFrom [(some 0, none), (some 1, some 0), (none, some 1), (some 2, 
     ∧ sbsSpec 7 40 [(some 0, none), (some 1, some 0), (none, some 1), (some 2, none)] [2, 1, 1] [3, 1]
       = [(some 7, none), (none, none), (some 8, some 40), (none, none), (none, none), (none, some 41), (some 9, none)] := by
   decide
+
+/-- The correction at the tail of the side-by-side row loop does not depend on whether the row's
+    states still carry their raw line (`HunkMinus(_, Some(raw))` — git-coloured input such as
+    `--color-moved`, `--minus-style raw`, …): the extracted arms constrain no payload. -/
+theorem fixup_ignores_raw_payload (c : Counters) (ls rs : St) (lraw rraw lraw' rraw' mi pi : Bool) :
+    applyFix c ls rs lraw rraw mi pi = applyFix c ls rs lraw' rraw' mi pi :=
+  applyFix_ignores_raw c ls rs lraw rraw lraw' rraw' mi pi
+
+example : applyFix ⟨7, 3⟩ .minus .plus true false true true = .ok ⟨8, 3⟩ := by rfl
 
 /-- Side-by-side view, unchanged line occupying `rows` rows: the first row shows both true
     numbers, continuation rows none; both counters advance by one. -/
@@ -89,7 +99,7 @@ theorem sbs_hunk_numbers_true (bs : List Block) (a c : Nat) (hwf : ∀ b ∈ bs,
       rows.map SbsRow.shown = (hunkSpec a c bs).map some :=
   runBlocksSbs_spec bs a c hwf ha hc
 
-example : hunkSpec 5 9 [.zero 2, .sub 1 1 [(some 0, some 0)] [1] [2], .zero 1]
+example : hunkSpec 5 9 [.zero 2, .sub 1 1 [(some 0, some 0)] [1] [2] [true] [false], .zero 1]
     = [(some 5, some 9), (none, none), (some 6, some 10), (none, none), (some 7, some 11)] := by decide
 
 /-- Hunk header `@@ -a[,b] +c[,d] @@frag` (any omitted counts, any fragment not starting with `@`):
